@@ -10,6 +10,7 @@ import numpy as np
 
 from tvmon import core, gen, ref
 from tvmon import docsig
+from tvmon import sanit
 from tvmon.ref import EPS
 from tvmon.interpose import installed
 
@@ -176,10 +177,14 @@ def make_skeleton(orig):
         A0 = np.array(a['A'], dtype=float, copy=True)
         U, V = orig(*args, **kw)
         ctx = core.CUR
-        if ctx is not None and not a['hermitian'] and A0.size <= 40000:
+        sym = A0.ndim == 2 and A0.shape[0] == A0.shape[1] and \
+            np.array_equal(A0, A0.T)
+        if ctx is not None and (not a['hermitian'] or sym) and \
+                A0.size <= 40000:
             judge_factor(ctx, 'matrix_skeleton', A0, U, V, float(a['e']),
                 float(a['r']), bool(a['rel']), str(a['give_to'])
                 if a['give_to'] in ('l', 'r') else 'm')
+            U, V = sanit.hand_out((U, V))
         return U, V
     return matrix_skeleton
 
@@ -197,6 +202,7 @@ def make_msvd(orig):
         if ctx is not None and A0.size <= 40000:
             judge_factor(ctx, 'matrix_svd', A0, U, V, float(a['e']),
                 float(a['r']), False, None)
+            U, V = sanit.hand_out((U, V))
         return U, V
     return matrix_svd
 
@@ -327,6 +333,11 @@ def run_matrix(case, ctx):
             rel = bool(rng.random() < 0.5)
             e = float(t / sv[0]) if rel else float(t)
             u = rng.random()
+            if rng.random() < 0.3:
+                # flags as they come out of comparisons / configuration
+                # files: numpy booleans and 0 / 1
+                rel = [np.bool_(rel), int(rel), np.int64(int(rel))][
+                    int(rng.integers(3))]
             if give_to == 'm' and u < 0.4:
                 teneva.matrix_skeleton(A, e, cap, rel=rel)
             elif u < 0.7:
@@ -360,6 +371,15 @@ def run_special(case, ctx):
         B = A.reshape(k, 2, k // 2)
         teneva.svd(B, 1e-9 * sv[0])
     ctx.event('nearly-symmetric-matrices')
+    # exactly symmetric INDEFINITE matrices through the hermitian path
+    Ssym = (S + S.T) * 10.0 ** rng.uniform(-3, 3)
+    svs = np.linalg.svd(Ssym, compute_uv=False)
+    for give_to in ('l', 'm', 'r'):
+        thr = float(svs[int(rng.integers(len(svs)))]) * (1 + 1e-3)
+        teneva.matrix_skeleton(Ssym, thr, 1e12, True, False, give_to)
+        teneva.matrix_skeleton(Ssym, 1e-3, int(rng.integers(1, k + 1)),
+            hermitian=True, rel=True, give_to=give_to)
+    ctx.event('symmetric-indefinite-hermitian-path')
     # exact ties
     m, n = int(rng.integers(2, 8)), int(rng.integers(2, 8))
     kk = min(m, n)
